@@ -16,7 +16,7 @@ from spec import frames
 
 MANIFEST = dict(
     category="proof",
-    technique="symbolic execution of the real functions (numba kernel via py_func, both branches forked) on sympy reals; Rodrigues / Taylor-polynomial / Euler-Jacobian identities decided in a fraction field; exact rational remainder bounds; Every claim is also checked for call history: the real code is run twice in the same symbolic world (primed inputs first; same captured objects and module state) and the second result must still meet the contract on every path a concrete witness input takes; value-dependent branches inside a claim are explored path by path. The frame obligations (C19's analysis) of the modules under contract are re-established under this property's name.",
+    technique="symbolic execution of the real functions (numba kernel via py_func, both branches forked) on sympy reals; Rodrigues / Taylor-polynomial / Euler-Jacobian identities decided in a fraction field; exact rational remainder bounds; Every claim is also checked for call history: the real code is run twice in the same symbolic world (primed inputs first; same captured objects and module state) and the second result must still meet the contract on every path a concrete witness input takes; value-dependent branches inside a claim are explored path by path. The frame obligations (C19's analysis) of the modules under contract are re-established under this property's name.; Bounded stand-ins shared by all properties (labelled bounded, never counted as proved): the argument-form battery of the modules under contract (batches of 1 and 1200 rows, integer-typed values, labels / columns in other orders, extra labels); where the frame analysis finds state that outlives a call (a cache, a memo) the frame obligation becomes a dynamic purity contract against pristine process states; names the proofs replace by scipy contracts are checked to be bound to the library's functions (else a differential test).",
     text="mat_from_rph / mat_to_rph are proved (under the assumed scipy Euler contracts) to be Rz(h)Ry(p)Rx(r), a proper rotation with the stated sign conventions, and mutual inverses modulo 360 deg for |pitch|<90; the kernel's rotation-vector routine is executed on both branches and proved equal to Rodrigues' formula (large branch) and to the degree-2 Taylor polynomials of the exponential-map coefficient functions (small branch), whose neglected terms are bounded below 2^-53 at the branch threshold read from the code; the attitude-error-to-Euler-error matrix is proved to be the derivative of the Euler angles under a small platform rotation. All for every angle / rotation vector, not sampled ones.",
     note="Assumes A1-A6 and the scipy contracts from_euler('xyz') extrinsic = Rz Ry Rx, as_euler('xyz') = (atan2(C21,C22), -asin(C20), atan2(C10,C00)), both cross-checked natively on every run (bounded check of the assumption); alternating-series remainder bound for the small branch (theorem).",
 )
